@@ -166,21 +166,34 @@ def dfxp_merge_check(cs, model):
 
     from mc.ref import parsers
 
-    want = {lang: _want_lines(ml) for lang, ml in ref_merge(model).items()}
+    want_all = {lang: _want_lines(ml) for lang, ml in ref_merge(model).items()}
+    langs = list(want_all)
     out = []
     for name in ("SinglePositioningDFXPWriter", "LegacyDFXPWriter"):
-        try:
-            t = parsers.parse_ttml(getattr(extras, name)().write(copy.deepcopy(cs)))
-        except Exception as e:  # noqa
-            out.append((f"C19/{name}-merge/raises:{type(e).__name__}", str(e)[:200]))
-            continue
-        got = {}
-        for d in t["divs"]:
-            got.setdefault(d["lang"], []).extend([[parsers.norm_line(l) for l in p_["lines"] if parsers.norm_line(l)] for p_ in d["ps"]])
-        if {k: v for k, v in got.items() if v} != {k: v for k, v in want.items() if v}:
-            bad = sorted(l for l in set(got) | set(want) if got.get(l, []) != want.get(l, []))
-            first_has_run = len(want[list(want)[0]]) != len(model[list(model)[0]])
-            out.append((f"C19/{name}-merge/run-not-merged-or-text-lost" + ("" if first_has_run or len(want) == 1 else "/run-only-in-a-later-language"), {"languages": bad, "got": got, "want": want}))
+        # force: none | the last language | the first one | a language the set does not have (the legacy writer then
+        # writes the last language, the single-positioning writer all of them)
+        for force in (None, "last", "first", "missing"):
+            kw = {} if force is None else {"force": {"last": langs[-1], "first": langs[0], "missing": "xx-XX"}[force]}
+            if force in ("last", "first"):
+                written = [kw["force"]]
+            elif force == "missing" and name == "LegacyDFXPWriter":
+                written = [langs[-1]]
+            else:
+                written = langs
+            want = {l: want_all[l] for l in written}
+            fx = "" if force is None else f"/force-{force}-language"
+            try:
+                t = parsers.parse_ttml(getattr(extras, name)().write(copy.deepcopy(cs), **kw))
+            except Exception as e:  # noqa
+                out.append((f"C19/{name}-merge/raises:{type(e).__name__}{fx}", str(e)[:200]))
+                continue
+            got = {}
+            for d in t["divs"]:
+                got.setdefault(d["lang"], []).extend([[parsers.norm_line(l) for l in p_["lines"] if parsers.norm_line(l)] for p_ in d["ps"]])
+            if {k: v for k, v in got.items() if v} != {k: v for k, v in want.items() if v}:
+                bad = sorted(l for l in set(got) | set(want) if got.get(l, []) != want.get(l, []))
+                first_has_run = len(want_all[langs[0]]) != len(model[langs[0]])
+                out.append((f"C19/{name}-merge/run-not-merged-or-text-lost" + ("" if first_has_run or len(want_all) == 1 else "/run-only-in-a-later-language") + fx, {"languages": bad, "got": got, "want": want}))
     return out
 
 
